@@ -1826,8 +1826,22 @@ class VM:
         # the program continues in the interpreter loop that called us)
         return self._call_callback(func, args, this_val)
 
+    def _arm_regex(self, regex: JSRegExp) -> JSRegExp:
+        """Make a regex poll the deadline of the evaluation that *uses* it.
+
+        A RegExp object can outlive the eval() that created it (kept in a
+        global, returned to another context): its time-limit callback must
+        not keep asking the clock of that finished evaluation.
+        """
+        callback = None
+        if self.time_limit is not None:
+            callback = lambda: time.monotonic() - self.start_time > self.time_limit
+        regex._internal._poll_callback = callback
+        return regex
+
     def _make_regexp_method(self, re: JSRegExp, method: str) -> Any:
         """Create a bound RegExp method."""
+        self._arm_regex(re)
 
         def test_fn(*args):
             # a missing argument is undefined, i.e. the string "undefined"
@@ -2114,7 +2128,7 @@ class VM:
             elif isinstance(sep, JSRegExp):
                 # Split with regex using microjs.regex
                 try:
-                    regex_internal = sep._internal
+                    regex_internal = self._arm_regex(sep)._internal
                     parts = []
                     capture_count = regex_internal._capture_count
 
@@ -2267,7 +2281,7 @@ class VM:
             if isinstance(pattern, JSRegExp):
                 # Replace with regex using microjs.regex
                 try:
-                    regex_internal = pattern._internal
+                    regex_internal = self._arm_regex(pattern)._internal
                     is_global = "g" in pattern._flags
                     capture_count = regex_internal._capture_count
 
@@ -2351,7 +2365,7 @@ class VM:
             """The RegExp that the argument of match/search is or stands for."""
             pattern = args[0] if args else UNDEFINED
             if isinstance(pattern, JSRegExp):
-                return pattern
+                return self._arm_regex(pattern)
             # new RegExp(undefined) is the empty pattern
             source = "" if pattern is UNDEFINED else to_str(pattern)
             poll_callback = None
